@@ -429,22 +429,36 @@ class Res(object):
             names |= {x.id for x in ast.walk(a) if isinstance(x, ast.Name)}
     return edges, names
 
-  def guarded(self, nid, atom, want=True):
-    """Every entry->nid path crosses, after the last rebinding of a local the test mentions, an edge
-    on which `atom` (predicate over (canonical atom, test node)) is known to be `want`."""
+  def guarded(self, nid, atom, want=True, starts=None, removed=()):
+    """Every entry->nid path crosses, after the last rebinding / in-place change of a local the
+    test mentions, an edge on which `atom` (predicate over (canonical atom, test node)) is known
+    to be `want`. With starts=<node ids>: every path from those nodes instead of from the entry;
+    removed=<node ids>: paths through these nodes are not considered."""
     edges, names = self._edges(atom, want)
     if not edges:
+      # no such test anywhere: guarded only if nid cannot be reached at all
+      edges = set()
+    removed = set(removed)
+    first = set(starts) if starts is not None else {self.cfg.entry.id}
+    first -= removed
+    if nid in first and starts is not None:
       return False
-    starts = {self.cfg.entry.id}
+    begin = set(first)
     for nm in names:
       # rebinding a local the test mentions, or changing it in place, forgets the fact
       for k in set(self.defs.get(nm, ())) | set(self.du.muts.get(nm, ())):
-        starts |= set(self.cfg.succ[k])
-    seen, todo = set(starts), list(starts)
+        if k in removed:
+          continue
+        begin |= {x for x in self.cfg.succ[k] if x not in removed}
+    # only kills that are themselves reachable from the starting points matter
+    if starts is not None:
+      live = self.cfg.reach(first, removed=removed)
+      begin = {b for b in begin if b in live}
+    seen, todo = set(begin), list(begin)
     while todo:
       a = todo.pop()
       for b in self.cfg.succ[a]:
-        if (a, b) in edges or b in seen:
+        if (a, b) in edges or b in seen or b in removed:
           continue
         seen.add(b)
         todo.append(b)
@@ -829,3 +843,30 @@ def iterations(fnode):
       for i, g in enumerate(n.generators):
         out.append((g.iter, g.target, body + [c for gg in n.generators[i:] for c in gg.ifs], n))
   return out
+
+
+def loop_body_nodes(res, loop_stmt):
+  """ids of the CFG nodes of the statements inside a loop's body."""
+  inner = {id(x) for st in loop_stmt.body for x in ast.walk(st)}
+  return {n.id for n in res.cfg.nodes if n.stmt is not None and id(n.stmt) in inner}
+
+
+def every_iteration(res, loop_stmt, nid):
+  """Node nid (inside the loop body) runs exactly once in every iteration that completes, and the
+  loop is never left early (break / return) -- so the loop performs it once per element."""
+  cfg = res.cfg
+  heads = {n.id for n in res.nodes_of(loop_stmt)}
+  body = loop_body_nodes(res, loop_stmt)
+  if nid not in body or not heads:
+    return False
+  first = {s for h in heads for s in cfg.succ[h] if s in body}
+  if heads & cfg.reach(first, removed={nid}):
+    return False                       # an iteration can complete without passing nid
+  if nid in cfg.reach_after({nid}, removed=heads):
+    return False                       # or pass it twice
+  for b in body:
+    for s in cfg.succ[b]:
+      if s not in body and s not in heads and s != cfg.raise_exit.id and \
+          (b, s) not in cfg.exc_edges and cfg.nodes[s].kind != "handler":
+        return False                   # leaves the loop early
+  return True
